@@ -94,3 +94,4 @@ fn c08_k1_appointment_layout() {
     std::mem::forget(v);
     std::mem::forget(a);
 }
+
